@@ -32,13 +32,17 @@ Print Assumptions C16_close_notify_total_at_most_once.
 (* --- exactly one close_notify when the application closes an established open session --- *)
 (* What is true of the model with the shared Once: exactly one close_notify record of this
    endpoint is on the wire - the one of this Close(), or the read loop's reply to the peer's
-   close_notify if that reached the Once first (then Close() writes none). *)
+   close_notify if that reached the Once first (then Close() writes none).  Premise: the socket
+   took writes all along ([wr_blk] is set by Env EWrBlock and never cleared); on a socket that
+   does not, Close() gives the write up after closeNotifyTimeout and returns without a record
+   (C16_example_close_with_blocked_socket). *)
 Theorem C16_close_notify_sent_when_user_closes_established_open :
   forall (d v : bool) (ops1 ops2 : list op) (i : nat),
     let g1 := run ops1 (cfg0 d v) in
     est (cn g1) = true -> closed (cn g1) = false -> nth_error (us g1) i = Some (UC CLock) ->
     let g2 := run (StepUser i :: ops2) g1 in
-    nth_error (us g2) i = Some UDone -> cn_close (cn g2) + cn_reply (cn g2) = 1.
+    nth_error (us g2) i = Some UDone -> wr_blk (cn g2) = false ->
+    cn_close (cn g2) + cn_reply (cn g2) = 1.
 Proof. exact sent_when_user_closes_established_open. Qed.
 Print Assumptions C16_close_notify_sent_when_user_closes_established_open.
 
@@ -90,7 +94,29 @@ Theorem C16_blocked_write_unblocks :
 Proof. exact write_unblocks. Qed.
 Print Assumptions C16_blocked_write_unblocks.
 
+(* --- a pending HandshakeContext is released with a closed-connection class --- *)
+(* HandshakeContext reports "context canceled" only if the context its caller passed is done
+   (commit 83f5bff; before, Close() during the handshake surfaced the internal cancellation:
+   finding F66, the former schedule is C16_example_close_during_handshake) *)
+Theorem C16_handshake_canceled_only_by_caller :
+  forall (d v : bool) (ops : list op) (r : hres),
+    let g := run ops (cfg0 d v) in
+    hs g = HRet r -> hres_class (est (cn g)) r = KCanceled -> hctx (cn g) = true.
+Proof. exact handshake_canceled_only_by_caller. Qed.
+Print Assumptions C16_handshake_canceled_only_by_caller.
+
+Theorem C16_handshake_result_without_caller_cancel :
+  forall (d v : bool) (ops : list op) (r : hres),
+    let g := run ops (cfg0 d v) in
+    hctx (cn g) = false -> hs g = HRet r ->
+    In (hres_class (est (cn g)) r) [KOk; KNetClosed; KAlert; KOther; KClosed].
+Proof. exact handshake_result_without_caller_cancel. Qed.
+Print Assumptions C16_handshake_result_without_caller_cancel.
+
 (* --- Close() returns, HandshakeContext is released, no goroutine stays (model level) --- *)
+(* [ops] ranges over every environment input as well, including Env EWrBlock (the socket stops
+   taking writes): since commit 8ae01eb the close_notify write of close() is bounded, so the three
+   statements need no assumption about the socket (finding F81). *)
 Theorem C16_no_deadlock :
   forall (d v : bool) (ops : list op),
     let g := run ops (cfg0 d v) in
@@ -152,8 +178,37 @@ Proof. exact four_closers. Qed.
 Example C16_example_close_during_handshake :
   let g := run ops_close_during_handshake (cfg0 false false) in
   cn_close (cn g) = 0 /\ sock_closes (cn g) = 1 /\ quiet g = true /\
-  hs g = HRet (HErr RCanceled) /\ hres_class (est (cn g)) (HErr RCanceled) = KCanceled.
+  hs g = HRet HClosed /\ hres_class (est (cn g)) HClosed = KClosed.
 Proof. exact close_during_handshake. Qed.
+
+Example C16_example_close_and_ctx_during_handshake :
+  let g := run ops_close_and_ctx_during_handshake (cfg0 false false) in
+  quiet g = true /\ hs g = HRet (HErr RCanceled) /\
+  hres_class (est (cn g)) (HErr RCanceled) = KCanceled.
+Proof. exact close_and_ctx_during_handshake. Qed.
+
+(* Close() on a socket that does not take writes returns (former finding F81), without a record *)
+Example C16_example_close_with_blocked_socket :
+  let g := run ops_close_with_blocked_socket (cfg0 false false) in
+  cn_close (cn g) = 0 /\ cn_reply (cn g) = 0 /\ cn_once (cn g) = true /\ closed (cn g) = true /\
+  sock_closes (cn g) = 1 /\ quiet g = true /\ us g = [UDone].
+Proof. exact close_with_blocked_socket. Qed.
+
+Example C16_example_reply_blocked_until_close :
+  let g := run ops_reply_blocked (cfg0 false false) in
+  rd g = RReply /\ reader_enabled (rd g) (cn g) = false /\ closed (cn g) = false /\
+  let g' := run (SpawnClose :: repeat (StepUser 0) 7 ++ repeat StepReader 10) g in
+  quiet g' = true /\ cn_close (cn g') + cn_reply (cn g') = 0 /\ sock_closes (cn g') = 1.
+Proof. exact reply_blocked_until_close. Qed.
+
+(* --- known gap K-C16-1: a deadline does not wake a Read/Write blocked in the implicit
+   Handshake() (conn.go Read/Write call HandshakeContext(context.Background())) --- *)
+Theorem C16_deadline_wakes_handshake_refuted :
+  let g := run [Env ECallHandshake; StepHs BEst; Env ERdDeadline; Env EWrDeadline] (cfg0 false false) in
+  rd_dl (cn g) = true /\ wr_dl (cn g) = true /\ hs g = HSelect /\
+  forall o, internal o = true -> op_enabled o g = false.
+Proof. exact deadline_wakes_handshake_refuted. Qed.
+Print Assumptions C16_deadline_wakes_handshake_refuted.
 
 Example C16_example_close_before_install :
   let g := run ops_close_before_install (cfg0 false false) in
